@@ -252,7 +252,7 @@ def _export_synsets(lexids: Sequence[int], version: VersionInfo) -> list[lmf.Syn
     synsets: list[lmf.Synset] = []
     for id, pos, ili, _, rowid in find_synsets(lexicon_rowids=lexids):
         ilidef = _export_ili_definition(rowid)
-        if ilidef and not ili:
+        if not ili and _has_proposed_ili(rowid):
             ili = 'in'  # special case for proposed ILIs
         ss: lmf.Synset = {
             'id': id,
@@ -282,6 +282,10 @@ def _export_definitions(rowid: int, lexids: Sequence[int]) -> list[lmf.Definitio
         for text, language, sense_id, rowid
         in get_definitions(rowid, lexids)
     ]
+
+
+def _has_proposed_ili(synset_rowid: int) -> bool:
+    return next(find_proposed_ilis(synset_rowid=synset_rowid), None) is not None
 
 
 def _export_ili_definition(synset_rowid: int) -> Optional[lmf.ILIDefinition]:
